@@ -74,7 +74,18 @@ func (e *Engine) verifyFunc(fn *ssa.Function, ct *Contract, prop string) *Run {
 		oe := &Env{r: r, st: o.st, old: r.entry, vars: vars, fr: o.fr, ctx: r.name + "/ensures"}
 		for _, cl := range ct.Ensures {
 			g := r.evalBool(oe, cl.Expr)
-			r.emit(o.st, "ensures:"+cl.Label, "ensures", ct.clauseProps(cl), g)
+			label := cl.Label
+			if strings.HasSuffix(label, "@") {
+				// one obligation per call site after which the function returned (deferred calls excluded)
+				last := "entry"
+				for _, t := range o.st.trace {
+					if !strings.HasPrefix(t, "defer:") && !strings.HasPrefix(t, "send:") && !strings.HasPrefix(t, "go:") {
+						last = t
+					}
+				}
+				label += last
+			}
+			r.emit(o.st, "ensures:"+label, "ensures", ct.clauseProps(cl), g)
 		}
 		for _, fname := range ct.Fresh {
 			if fv, ok := vars[fname]; ok {
